@@ -105,7 +105,7 @@ func mxPayOfOther(c string, payload []byte) int {
 	case "h265":
 		for _, n := range splitAVCC(payload) {
 			if len(n) >= 2 {
-				if t := (n[0] >> 1) & 0x3f; t == 19 || t == 21 || t == 1 || t == 0 {
+				if t := (n[0] >> 1) & 0x3f; t < 32 { // any VCL NAL unit type
 					if id := idOf(n[2:]); id >= 0 {
 						return id
 					}
